@@ -96,3 +96,19 @@ class InstanceStatusSerial:
 
     def modifies(self):
         return []
+
+
+@contract('context:Context.publish_process_failures', props=[])
+class PublishProcessFailures:
+    """publishes the failed processes and refreshes the status of their applications (ApplicationStatus.update, C15):
+    writes ApplicationStatus fields only (_state, major_failure, minor_failure) - no instance status, no process status"""
+    assumed = True
+    raises = ()
+    effect = 'publish_process_failures'
+
+    def modifies(self):
+        return [whole('F:_state:'), whole('F:major_failure:'), whole('F:minor_failure:')]
+
+    def post_only_application_states(self, old):
+        return (forall(ProcessStatus, lambda p: p._state == at(old, p)._state)
+                and forall(SupvisorsInstanceStatus, lambda s: s._state == at(old, s)._state))
